@@ -111,6 +111,8 @@ def stmt_failures():
     F["op_undefined_prop"] = lambda: [A.OpAssign("+", A.Prop(V("o"), "zz", False), I(1))]
     F["op_undefined_key"] = lambda: [A.OpAssign("+", A.Index(V("o"), S("zz")), I(1))]
     F["assign_type_prop"] = lambda: [A.Assign(A.Prop(V("n"), "type", True), I(1))]
+    F["assign_type_prop_object"] = lambda: [A.Assign(A.Prop(V("o"), "a", True), I(1))]
+    F["opassign_type_prop_object"] = lambda: [A.OpAssign("+", A.Prop(V("o"), "a", True), I(1))]
     F["index_assign_non_container"] = lambda: [A.Assign(A.Index(V("n"), I(0)), I(1))]
     F["index_assign_oob"] = lambda: [A.Assign(A.Index(V("xs"), I(3)), I(1))]
     F["prop_assign_non_object"] = lambda: [A.Assign(A.Prop(V("xs"), "a", False), I(1))]
@@ -253,7 +255,7 @@ def wrap_context(stmts, ctx, uid):
     raise ValueError(ctx)
 
 
-CALL_FORMS = ["named", "anon_var", "method", "passed", "returned", "index_call"]
+CALL_FORMS = ["named", "anon_var", "method", "passed", "returned", "index_call", "recursive"]
 
 
 def prelude():
@@ -308,7 +310,11 @@ def generate(seed, kind=None, position=None, ctx=None, depth=None):
         fname = "lv%d" % lvl
         fbody = [A.pr(S("enter %d" % lvl))] + cur + [A.pr(S("leave %d" % lvl))]
         loop_wrap = (kind in ("break_in_fn", "continue_in_fn")) and lvl == 1
-        if form == "named":
+        if form == "recursive":
+            # direct recursion: the same call site is active several times (identical consecutive stack-trace lines)
+            defs = [A.FuncStmt(fname, [V("arg")], False, [A.If([(A.Bin(">", V("arg"), I(0)), [A.Return(A.call(fname, A.Bin("-", V("arg"), I(1))))])], None)] + fbody)]
+            callx = A.call(fname, I(2))
+        elif form == "named":
             defs = [A.FuncStmt(fname, [V("arg")], False, fbody)]
             callx = A.call(fname, I(lvl))
         elif form == "anon_var":
